@@ -385,7 +385,7 @@ func runShard(prop, repo, tier string, si, sn int) *Partial {
 	var all []*Oblig
 	idx := 0
 	for _, fc := range db.Order {
-		if !hasProp(fc.Props, prop) || fc.Trusted {
+		if !hasProp(fc.Props, prop) || fc.Trusted || (fc.ThoroughOnly && tier != "thorough") {
 			continue
 		}
 		mine := idx%sn == si
@@ -567,7 +567,7 @@ func cmdCheck(args []string) int {
 		L := load(*repo)
 		cnt := 0
 		for _, fc := range L.Contracts.Order {
-			if hasProp(fc.Props, prop) && !fc.Trusted {
+			if hasProp(fc.Props, prop) && !fc.Trusted && !(fc.ThoroughOnly && *tier != "thorough") {
 				cnt++
 			}
 		}
